@@ -843,6 +843,13 @@ def generate(unit, probe_labels=frozenset()):
     """returns Generated; probe_labels: set of clause labels emitted unguarded (known-finding probes)"""
     g = Generated()
     skel = read_skeleton(unit.skeleton)
+    if getattr(unit, "carry_facts_into_loops", True):
+        # crate-level `loop_isolation(false)`: facts about variables a loop does not modify stay available inside it,
+        # so an edit that routes a value through a new immutable local does not orphan the loop's proof
+        for k, l in enumerate(skel):
+            if l.startswith("#![allow("):
+                skel.insert(k, "#![verifier::loop_isolation(false)]")
+                break
     by_slot = {}
     for it in unit.items:
         by_slot.setdefault(it.slot, []).append(it)
